@@ -143,6 +143,25 @@ ErrProgs ==
        \* the program sets err itself; a later success resets it
        P(<<SAsg(ErrV, EBool(TRUE)), SAsg(ErrM, EStr(<<109>>)), SInfer("n", Num(5)), ObsE>> \o Good \o <<ObsE>> \o Fail \o <<ObsE>>, <<>>) }
 
+\* 13. repetition deep-copies composites also when they are held in an any
+RepAnyProgs ==
+  LET TA == TArr(T_any)
+      a == EVar("a", TA)
+      b == EVar("b", TA)
+      c == EVar("c", TArr(T_num))
+      d == EVar("d", TArr(T_num))
+      m == EVar("m", TMap(T_any))
+      arr == EVar("arr", TArr(TMap(T_any)))
+      inner == EVar("inner", TArr(T_num))
+  IN { P(<<SInfer("a", EArr(<<EArr(<<Num(0), Num(0)>>), EStr(<<120>>)>>)), SInfer("b", EBin("*", a, Num(2))),
+           SInfer("c", EAssert(EIdx(b, Num(0)), TArr(T_num))), SAsg(EIdx(c, Num(0)), Num(9)), Pr(<<a, b, c>>),
+           SInfer("d", EAssert(EIdx(a, Num(0)), TArr(T_num))), SAsg(EIdx(d, Num(1)), Num(8)), Pr(<<a, b>>),
+           Pr(<<ECallB("typeof", <<EIdx(b, Num(2))>>), ECallB("typeof", <<EIdx(b, Num(3))>>), EBin("==", EIdx(b, Num(0)), EIdx(b, Num(2))), EBin("==", EIdx(b, Num(1)), EIdx(b, Num(0)))>>)>>, <<>>),
+       P(<<SDecl("m", TMap(T_any)), SAsg(m, EMap(<<K_k, <<106>>>>, <<EArr(<<Num(1)>>), Num(2)>>)), SInfer("arr", EBin("*", EArr(<<m>>), Num(2))),
+           SInfer("inner", EAssert(EDot(EIdx(arr, Num(0)), K_k), TArr(T_num))), SAsg(EIdx(inner, Num(0)), Num(5)),
+           SAsg(EDot(EIdx(arr, Num(1)), <<106>>), Num(7)), Pr(<<arr, m>>),
+           SFor("e", "arr", <<arr>>, <<SFor("q", "map", <<EVar("e", TMap(T_any))>>, <<Pr(<<EVar("q", T_str), ECallB("typeof", <<EIdx(EVar("e", TMap(T_any)), EVar("q", T_str))>>)>>)>>)>>)>>, <<>>) }
+
 Who == {"a", "b"}
 Basic == {td \in TDs : ~IsComp(td)}
 Comp == {td \in TDs : IsComp(td)}
@@ -157,7 +176,7 @@ Progs ==
   \cup UNION {{ByAny(td, kd), ByAnyElem(td, kd)} : td \in TDs \ {td \in TDs : td.ty = T_any}, kd \in {"assign"}}
   \cup UNION {{ByAny(td, "inplace"), ByAnyElem(td, "inplace")} : td \in Comp}
   \cup UNION {{Fresh(td, how, kd) : how \in {"slice", "slice1", "concat", "rep"}, kd \in {"assign", "inplace"}} : td \in Arrs}
-  \cup ErrProgs
+  \cup ErrProgs \cup RepAnyProgs
 
 FamCases == {MkCase("FamAlias", IF p \in ErrProgs THEN "err" ELSE "alias", p) : p \in Progs}
 FamInit == InitWith(FamCases)
